@@ -1571,3 +1571,137 @@ VARIANTS += [
       edits=body_shape(call=sub(BODY_CALL, 'installedPlugin, pluginCapabilities, err = v.locate', '_, pluginCapabilities, err = v.locate')),
       why='the caller keeps the capabilities of the named plugin (native checks routed away) but not the plugin: nothing is ever executed'),
 ]
+
+# ==== fifth pass =======================================================================================================
+# ---- class "sentinel error vs empty value": 'the signature names a plugin' decided on the ERROR of the name reader
+#      (`err == errExtendedAttributeNotExist` -> none, `err != nil` -> fail, else named) instead of on `name != ""`
+OLD_NAME_GUARD = '''	verificationPluginName, err := getVerificationPlugin(signerInfo)
+	// use plugin, but getPluginName returns an error
+	if err != nil && err != errExtendedAttributeNotExist {
+		return "", nil, nil, err
+	}
+	if verificationPluginName == "" {
+		// the signature does not require a verification plugin
+		return "", nil, nil, nil
+	}
+'''
+assert OLD_NAME_GUARD in LOOKUP_HELPER
+SENTINEL_GUARD = '''	verificationPluginName, err := getVerificationPlugin(signerInfo)
+	if err == errExtendedAttributeNotExist {
+		// the signature does not require a verification plugin
+		return "", nil, nil, nil
+	}
+	if err != nil {
+		return "", nil, nil, err
+	}
+'''
+SENTINEL_HELPER = sub(LOOKUP_HELPER, OLD_NAME_GUARD, SENTINEL_GUARD)
+SENTINEL_SWITCH = '''	verificationPluginName, err := getVerificationPlugin(signerInfo)
+	switch {
+	case errors.Is(err, errExtendedAttributeNotExist):
+		return "", nil, nil, nil
+	case err != nil:
+		return "", nil, nil, err
+	}
+'''
+NOT_NIL_FIRST = '''	verificationPluginName, err := getVerificationPlugin(signerInfo)
+	if err != nil {
+		if err != errExtendedAttributeNotExist {
+			return "", nil, nil, err
+		}
+		return "", nil, nil, nil
+	}
+'''
+OLD_INLINE_IF = '\tvar installedPlugin pluginframework.VerifyPlugin\n\tif verificationPluginName != "" {\n'
+assert OLD_INLINE_IF in _SRC_V
+OLD_TRIM = '''	// not an empty string
+	if strings.TrimSpace(name) == "" {
+		return "", fmt.Errorf("%v from extended attribute is an empty string", HeaderVerificationPlugin)
+	}
+	return name, nil
+'''
+assert OLD_TRIM in open('/repo/' + H).read()
+VARIANTS += [
+ dict(name='benign-lookup-sentinel-guard', expect='silent', edits=lookup_shape(helper=SENTINEL_HELPER),
+      why='the lookup helper decides "no plugin named" on err == errExtendedAttributeNotExist of the name reader and "named" on err == nil: the reader answers nil only with a non-blank name and "" with every error (held-out refactoring C02-1 of batch 5)'),
+ dict(name='benign-lookup-sentinel-guard-result-struct', expect='silent', edits=struct_shape(helper=struct_helper(helper=SENTINEL_HELPER)),
+      why='same, one result object'),
+ dict(name='benign-lookup-sentinel-switch-errors-is', expect='silent', edits=lookup_shape(helper=sub(LOOKUP_HELPER, OLD_NAME_GUARD, SENTINEL_SWITCH)),
+      why='same, as a tagless switch with errors.Is'),
+ dict(name='benign-lookup-error-nested-sentinel', expect='silent', edits=lookup_shape(helper=sub(LOOKUP_HELPER, OLD_NAME_GUARD, NOT_NIL_FIRST)),
+      why='same, `if err != nil { if err != sentinel { fail }; none }`: the no-plugin exit lies behind err != nil'),
+ dict(name='benign-inline-named-on-nil-error', expect='silent', file=V, find=OLD_INLINE_IF,
+      replace='\tvar installedPlugin pluginframework.VerifyPlugin\n\tif err == nil {\n',
+      why='no helper: the named branch of processSignature is entered on err == nil of the name reader'),
+ dict(name='benign-inline-named-on-trimmed-name', expect='silent', file=V, find=OLD_INLINE_IF,
+      replace='\tvar installedPlugin pluginframework.VerifyPlugin\n\tif strings.TrimSpace(verificationPluginName) != "" {\n',
+      why='the named branch is entered on a non-blank name (a non-blank name is non-empty)'),
+ # broken counterparts
+ dict(name='lookup-sentinel-guard-any-error-is-no-plugin', expect='flagged(plugin/name-attr)',
+      edits=lookup_shape(helper=sub(SENTINEL_HELPER, '\t\treturn "", nil, nil, nil\n\t}\n\tif err != nil {\n\t\treturn "", nil, nil, err\n\t}\n', '\t\treturn "", nil, nil, nil\n\t}\n\tif err != nil {\n\t\treturn "", nil, nil, nil\n\t}\n')),
+      why='a malformed plugin-name attribute is taken for "no plugin"'),
+ dict(name='lookup-sentinel-guard-hands-back-capabilities', expect='flagged(plugin/lookup-results)',
+      edits=lookup_shape(helper=sub(SENTINEL_HELPER, '\t\t// the signature does not require a verification plugin\n\t\treturn "", nil, nil, nil\n',
+                                    '\t\treturn "", nil, []pluginframework.Capability{pluginframework.CapabilityTrustedIdentityVerifier}, nil\n')),
+      why='with no plugin named the helper declares a capability: the native identity check is routed away to nobody'),
+ dict(name='lookup-sentinel-guard-widened', expect='flagged(plugin/lookup-results)',
+      edits=lookup_shape(helper=sub(SENTINEL_HELPER, '\tif err == errExtendedAttributeNotExist {\n', '\tif err == errExtendedAttributeNotExist || pluginConfig == nil {\n')),
+      why='the "no plugin" exit is also taken with a plugin named'),
+ dict(name='lookup-sentinel-guard-reader-accepts-blank-name', expect='flagged(plugin/)',
+      edits=lookup_shape(helper=SENTINEL_HELPER, more=[(H, OLD_TRIM, '\treturn name, nil\n')]),
+      why='the reader answers err == nil with an empty name: err == nil no longer means that a plugin is named'),
+ dict(name='lookup-sentinel-guard-reader-returns-name-with-error', expect='flagged(plugin/)',
+      edits=lookup_shape(helper=SENTINEL_HELPER, more=[(H, '\t\treturn "", fmt.Errorf("%v from extended attribute is an empty string", HeaderVerificationPlugin)\n', '\t\treturn name, errExtendedAttributeNotExist\n')]),
+      why='the reader hands back a name together with the sentinel: err == sentinel no longer means name == ""'),
+ dict(name='lookup-sentinel-guard-sentinel-reassigned', expect='flagged(plugin/)',
+      edits=lookup_shape(helper=SENTINEL_HELPER + 'func resetAttributeSentinel() {\n\terrExtendedAttributeNotExist = nil\n}\n\n'),
+      why='the sentinel variable can become nil: err == sentinel then holds for a reader that succeeded'),
+ dict(name='lookup-sentinel-guard-get-error-ignored', expect='flagged(plugin/get-error)',
+      edits=lookup_shape(helper=sub(SENTINEL_HELPER, 'Get(ctx, verificationPluginName)\n\tif err != nil {', 'Get(ctx, verificationPluginName)\n\tif err != nil && installedPlugin == nil {')),
+      why='the fail-closed gates are still required on the named exits found through the error spelling'),
+ dict(name='inline-named-on-nil-error-or-config', expect='flagged(plugin/)', file=V, find=OLD_INLINE_IF,
+      replace='\tvar installedPlugin pluginframework.VerifyPlugin\n\tif err == nil && pluginConfig != nil {\n',
+      why='with a plugin named and no plugin config the lookup is skipped: the plugin is never found nor executed'),
+]
+
+# ---- class "several parameters bundled into a struct / parameter widened": the trusted identities reach the native
+#      identity check through a field of a policy struct, or are read off the policy document handed in
+_PS_SIG = 'envelopeMediaType, policyName string, trustedIdentities, trustStores []string, signatureVerification trustpolicy.SignatureVerification, pluginConfig'
+assert _SRC_V.count(_PS_SIG) == 1
+_PS_CALL = 'trustPolicy.Name, trustPolicy.TrustedIdentities, trustPolicy.TrustStores, trustPolicy.SignatureVerification, '
+assert _SRC_V.count(_PS_CALL) == 2
+POLICY_TYPE = 'type policyStatement struct {\n\tname                  string\n\ttrustedIdentities     []string\n\ttrustStores           []string\n\tsignatureVerification trustpolicy.SignatureVerification\n}\n\n'
+POLICY_LIT = 'policyStatement{name: trustPolicy.Name, trustedIdentities: trustPolicy.TrustedIdentities, trustStores: trustPolicy.TrustStores, signatureVerification: trustPolicy.SignatureVerification}'
+def policy_shape(lit=POLICY_LIT, ptype='policy policyStatement', acc='policy.', decl=POLICY_TYPE, ti=None, more=()):
+    ti = ti if ti is not None else acc + 'trustedIdentities'
+    return [(V, _PS_CALL, lit + ', '), (V, _PS_CALL, lit + ', '),
+            (V, _PS_SIG, 'envelopeMediaType string, ' + ptype + ', pluginConfig'),
+            (V, 'SigningScheme, policyName, trustStores, v.trustStore)', 'SigningScheme, %sname, %strustStores, v.trustStore)' % (acc, acc)),
+            (V, 'verifyX509TrustedIdentities(policyName, trustedIdentities, outcome', 'verifyX509TrustedIdentities(%sname, %s, outcome' % (acc, ti)),
+            (V, 'verifyAuthenticTimestamp(ctx, policyName, trustStores, signatureVerification, v.trustStore', 'verifyAuthenticTimestamp(ctx, %sname, %strustStores, %ssignatureVerification, v.trustStore' % (acc, acc, acc)),
+            (V, 'outcome.EnvelopeContent, trustedIdentities, pluginConfig)\n\t\t\tif err != nil {', 'outcome.EnvelopeContent, %strustedIdentities, pluginConfig)\n\t\t\tif err != nil {' % acc),
+            (V, ANCHOR, decl + ANCHOR)] + list(more)
+VARIANTS += [
+ dict(name='benign-policy-parameters-in-struct', expect='silent', edits=policy_shape(),
+      why='the four policy parameters of processSignature bundled into one struct value (held-out refactoring C01-2 of batch 5)'),
+ dict(name='benign-policy-parameters-in-struct-pointer', expect='silent', edits=policy_shape(lit='&' + POLICY_LIT, ptype='policy *policyStatement'),
+      why='same, handed over by pointer'),
+ dict(name='benign-policy-struct-identities-in-local', expect='silent',
+      edits=policy_shape(ti='identities', more=[(V, '\t\tlogger.Debug("Validating trust identity")\n', '\t\tlogger.Debug("Validating trust identity")\n\t\tidentities := policy.trustedIdentities\n')]),
+      why='same, the field copied into a local before the check'),
+ dict(name='policy-struct-identities-from-trust-stores', expect='flagged(routing/identity)',
+      edits=policy_shape(lit=POLICY_LIT.replace('trustedIdentities: trustPolicy.TrustedIdentities', 'trustedIdentities: trustPolicy.TrustStores')),
+      why='the identity check is handed the trust store names: no check against the trusted identities of the policy is recognised'),
+ dict(name='policy-struct-identities-overwritten', expect='flagged(routing/identity)',
+      edits=policy_shape(more=[(V, '\t\tlogger.Debug("Validating trust identity")\n', '\t\tlogger.Debug("Validating trust identity")\n\t\tif pluginConfig != nil {\n\t\t\tpolicy.trustedIdentities = []string{"*"}\n\t\t}\n')]),
+      why='the field is assigned a wildcard on some path: what the check receives is not the policy\'s list'),
+ dict(name='policy-struct-pointer-identities-overwritten', expect='flagged(routing/identity)',
+      edits=policy_shape(lit='&' + POLICY_LIT, ptype='policy *policyStatement', more=[(V, '\t\tlogger.Debug("Validating trust identity")\n', '\t\tlogger.Debug("Validating trust identity")\n\t\tif pluginConfig != nil {\n\t\t\tpolicy.trustedIdentities = []string{"*"}\n\t\t}\n')]),
+      why='pointer shape: the callee writes the field of the object it was handed, the check may receive a wildcard'),
+ dict(name='benign-inline-blank-name-guard', expect='silent', file=V, find=OLD_INLINE_IF,
+      replace='\tvar installedPlugin pluginframework.VerifyPlugin\n\tif err == nil && len(strings.TrimSpace(verificationPluginName)) > 0 {\n',
+      why='both spellings at once'),
+ dict(name='policy-struct-identity-check-unguarded-skip', expect='flagged(routing/identity)',
+      edits=policy_shape(more=[(V, '\tif !slices.Contains(pluginCapabilities, pluginframework.CapabilityTrustedIdentityVerifier) {\n\t\tlogger.Debug("Validating trust identity")', '\tif !slices.Contains(pluginCapabilities, pluginframework.CapabilityTrustedIdentityVerifier) && installedPlugin == nil {\n\t\tlogger.Debug("Validating trust identity")')]),
+      why='struct shape with the property broken: with any plugin named the native identity check is skipped, whether or not the plugin declares the capability'),
+]
